@@ -117,6 +117,7 @@ func init() {
 		fr.e.sched.noTimers = true
 		return nil
 	})
+	reg(rt+"NativeTimeout", func(fr *frame, args []Value) Value { return nil })
 	reg(rt+"TimersFireTogether", func(fr *frame, args []Value) Value {
 		fr.e.sched.timersTogether = fr.e.branch(args[0].(*Term))
 		return nil
